@@ -371,6 +371,55 @@ theorem c04_partial_old_refuted : ¬ C04_partial_old := fun h => identifier_verb
 
 theorem c04_fixed : C04_fixed := ⟨values_safe, identifier_quote_all⟩
 
+/-! ## 7. a whole statement: any number of user-text positions at once -/
+
+/-- THE token-structure clause for a statement as a whole: whatever the user values are and however many positions
+the statement has, its tokens are the tokens of the formatter's own text with exactly ONE token per user-text
+position carrying the user's value (string constant / bare identifier / quoted identifier). Hypothesis `wfSegs`
+(decidable, about the FORMATTER'S text only, apart from "values are NUL-free" and "a bare name is a Cypher bare name"):
+every formatter text leaves the lexer in no open token, and the text after a position cannot extend that position. -/
+theorem statement_tokens (segs : List Seg) (h : wfSegs segs = true) : lex (renderSegs segs) = toksOfSegs segs :=
+  lex_renderSegs segs h
+
+/-- the benign-twin clause: two statements with the same formatter text and the same kinds of positions have token
+lists that agree everywhere except in the value of the position tokens -/
+def sameSkeleton : List Seg → List Seg → Bool
+  | [], [] => true
+  | .text a :: as, .text b :: bs => a == b && sameSkeleton as bs
+  | .lit _ :: as, .lit _ :: bs => sameSkeleton as bs
+  | .bare _ :: as, .bare _ :: bs => sameSkeleton as bs
+  | .bt _ :: as, .bt _ :: bs => sameSkeleton as bs
+  | _, _ => false
+
+def eraseValue : Tok → Tok
+  | .str _ => .str []
+  | .word _ => .word []
+  | .qident _ => .qident []
+  | t => t
+
+def skeletonToks : List Seg → List (Tok ⊕ Tok)   -- inl = formatter token (kept), inr = position token (value erased)
+  | [] => []
+  | .text t :: rest => (run .top t).1.map Sum.inl ++ skeletonToks rest
+  | s :: rest => s.toks.map (fun t => Sum.inr (eraseValue t)) ++ skeletonToks rest
+
+theorem skeleton_eq (a b : List Seg) (h : sameSkeleton a b = true) : skeletonToks a = skeletonToks b := by
+  induction a generalizing b with
+  | nil => cases b <;> simp_all [sameSkeleton]
+  | cons x xs ih =>
+    cases b with
+    | nil => cases x <;> simp [sameSkeleton] at h
+    | cons y ys =>
+      cases x <;> cases y <;> simp [sameSkeleton] at h
+      · simp [skeletonToks, h.1, ih ys h.2]
+      · simp [skeletonToks, Seg.toks, eraseValue, ih ys h]
+      · simp [skeletonToks, Seg.toks, eraseValue, ih ys h]
+      · simp [skeletonToks, Seg.toks, eraseValue, ih ys h]
+
+/-- hostile and benign twin: same formatter tokens in the same places, one token per position in both -/
+theorem statement_twin_tokens (a b : List Seg) (ha : wfSegs a = true) (hb : wfSegs b = true) (h : sameSkeleton a b = true) :
+    lex (renderSegs a) = toksOfSegs a ∧ lex (renderSegs b) = toksOfSegs b ∧ skeletonToks a = skeletonToks b :=
+  ⟨lex_renderSegs a ha, lex_renderSegs b hb, skeleton_eq a b h⟩
+
 /-! ## non-vacuity: the hypotheses are satisfiable on the text the formatter really writes -/
 
 -- a hostile value in the WHERE position of real emitted SQL
@@ -411,6 +460,11 @@ example : nearestF64Bits (decValue "0.12345679".toList) ≠ nearestF64Bits (decV
 example : nearestF64Bits (decValue "16777216".toList) ≠ nearestF64Bits (decValue "16777217".toList) := by decide
 example : nearestF64Bits (decValue "0.3".toList) ≠ nearestF64Bits (decValue "0.30000000000000004".toList) := by decide
 example : nearestF64Bits (ratOf 5 (-324)) = 1 ∧ nearestF64Bits (ratOf 17976931348623157 292) = 0x7FEFFFFFFFFFFFFF := by decide +kernel
+-- a real emitted statement with three user positions (key, back-ticked alias, literal): wfSegs holds, tokens as stated
+example : wfSegs [.text "select ((s0.n0).properties -> ".toList, .lit "k'1".toList, .text ") as ".toList, .bt "x; drop table node; --".toList,
+    .text " from s0 where (n0.properties ->> 'name') = ".toList, .lit "it's".toList, .text ";".toList] = true := by decide
+example : String.ofList (renderSegs [.text "select 1 as ".toList, .bare "total".toList, .text ", ".toList, .lit "a'b".toList, .text " as ".toList, .bt "x y".toList, .text ";".toList])
+    = "select 1 as total, 'a''b' as \"x y\";" := by decide
 -- the NUL guard is needed: the server's view of the text ends at the NUL
 example : lex (pgQuote ['a', NUL, 'b'] ++ " x".toList) = [.err "unterminated quoted string", .nul] := by decide
 -- decoder: accepted and rejected tokens
